@@ -150,3 +150,35 @@ func VerifC14Segments() {
 	zz.Assert(str == ref, "C14.one-pass-result")
 	zz.Assert(got == c14Calls, "C14.each-own-expression-evaluated-once")
 }
+
+// c14NestRef: the text f(n) evaluates to in the program of VerifC14Nested.
+func c14NestRef(n int) string {
+	if n == 0 {
+		return "."
+	}
+	return "<" + c14NestRef(n-1) + "|" + c14NestRef(0) + ">"
+}
+
+// VerifC14Nested: evaluating a group of a literal may evaluate the SAME literal again (a function whose interpolated
+// string calls the function recursively) and other literals: every evaluation still yields its own groups replaced left
+// to right, whatever happened while a group was being evaluated.  Recursion depth symbolic.
+func VerifC14Nested() {
+	erp, _ := zzProvider()
+	vs := zzScope()
+	n := zz.Choice("depth", zz.Param("DEPTH", 3)+1)
+	vs.SetValue("N", float64(n))
+	src := "func f(n) {\n  if n == 0 {\n    return \".\"\n  }\n  return \"<{{f(n - 1)}}|{{f(0)}}>\"\n}\n" +
+		"func g(x) {\n  return \"[{{x}}]\"\n}\n" +
+		"r := f(N)\nq := \"{{g(f(N))}}{{g(1)}}\""
+	zz.Reach("before-eval")
+	_, err := zzRun(erp, src, vs)
+	zz.Reach("after-eval")
+	zz.Assert(err == nil, "C14.evaluates")
+	if err != nil {
+		return
+	}
+	r, _, _ := vs.GetValue("r")
+	q, _, _ := vs.GetValue("q")
+	zz.Assert(r == interface{}(c14NestRef(n)), "C14.one-pass-result")
+	zz.Assert(q == interface{}("["+c14NestRef(n)+"][1]"), "C14.one-pass-result")
+}
